@@ -24,7 +24,9 @@ use vstd::std_specs::iter::IteratorSpec;
 //@@ DEFINE ENV_REAL
 //@@ INCLUDE gen_types.inc.rs
 pub struct Identifier { _x: u8 }
-pub struct Class { _x: u8 }
+/// partial stand-in: the one public field the generator reads directly is real, the rest is opaque
+pub struct ClassRest { _x: u8 }
+pub struct Class { pub parents: HashSet<TrueName>, pub verif_rest: ClassRest }
 
 verus! {
 
@@ -135,7 +137,7 @@ pub open spec fn args_chain(args: Seq<AST>, envs: Seq<Environment>, env0: Enviro
 //@@ REPLACE
 //@@< var.node == Node::new_self()
 //@@> verif_is_self(&var.node)
-//@@ REPLACE pin=4a19d924689a
+//@@ REPLACE pin=f390ac01383c
 //@@< env.class.clone().ok_or_else($$)
 //@@> verif_ok_or_err(env.class.clone(), var.pos)
 //@@ HINT after
@@ -234,7 +236,7 @@ pub open spec fn def_chain(i: Identifier, ty: Option<Name>, envs: Seq<Environmen
 //@@ REPLACE
 //@@< let fields = identifier.fields(var.pos)?;
 //@@> let fields = verif_fields(&identifier, var.pos)?;
-//@@ REPLACE pin=acb125c5235c
+//@@ REPLACE pin=521214f978e3
 //@@< for ($i, ($e, $t)) in enumerate(elements.iter().zip(&temp_names)) { $$ }
 //@@> verif_havoc_tuple_elements(elements, &temp_names, &env, constr);
 //@@ HINT after
@@ -339,7 +341,8 @@ pub fn verif_havoc_arm_types(cases: &Vec<AST>) -> (r: TypeResult<HashSet<TrueNam
 { unimplemented!() }
 // ---- constr_col_lookup: where a for-variable / comprehension variable is DEFINED (C09) -------------------------------------
 #[verifier::external_type_specification] #[verifier::external_body] pub struct ExIdentifier(Identifier);
-#[verifier::external_type_specification] #[verifier::external_body] pub struct ExClass(Class);
+#[verifier::external_type_specification] #[verifier::external_body] pub struct ExClassRest(ClassRest);
+#[verifier::external_type_specification] pub struct ExClass(Class);
 /// the (mutable, name) pairs an identifier pattern binds (Identifier::try_from + fields: iterator code; a function of
 /// the pattern)
 pub uninterp spec fn id_fields(a: AST) -> Seq<(bool, String)>;
@@ -509,7 +512,7 @@ pub open spec fn flow_post(ast: AST, env: Environment, r: Constrained, b: Constr
 }
 
 //@@ FN src/check/constrain/generate/control_flow.rs | free | gen_flow | props=C09,C08,C07,C03
-//@@ REPLACE pin=92d9ef93045a
+//@@ REPLACE pin=9ecba00f18d7
 //@@< let (raises, errs): (Vec<Result<_, _>>, Vec<Result<_, _>>) = cases $$ .partition(Result::is_ok); if !errs.is_empty() { $$ } let raises = raises.into_iter().map(Result::unwrap).collect();
 //@@> let raises: HashSet<TrueName> = verif_havoc_arm_types(cases)?;
 //@@ REPLACE
@@ -657,20 +660,29 @@ pub open spec fn with_post(ast: AST, env: Environment, r: Constrained, b: Constr
 
 // ---- function definitions (C08: declared raises must be Exceptions and are caught inside the body; C09: a function's names
 // ---- stay inside) -----------------------------------------------------------------------------------------------------------
-/// A-EXT (class hierarchy): the class `n` has `Exception` among its ancestors (Context::class + Class::has_parent)
-pub uninterp spec fn is_exception(ctx: Context, n: TrueName) -> bool;
+/// A-EXT (class hierarchy, Class::has_parent — a recursive walk over Context): `a` is the class `c` itself or one of its
+/// ancestors, for a class name / for a (possibly union) Name
+pub uninterp spec fn anc(ctx: Context, c: TrueName, a: TrueName) -> bool;
+pub uninterp spec fn name_anc(ctx: Context, c: TrueName, a: Name) -> bool;
+pub uninterp spec fn class_known(ctx: Context, n: TrueName) -> bool;
 pub uninterp spec fn cls_of(c: Class) -> TrueName;
 pub uninterp spec fn exception_name() -> Name;
+/// the class `n` has `Exception` among its ancestors
+pub open spec fn is_exception(ctx: Context, n: TrueName) -> bool { name_anc(ctx, n, exception_name()) }
 impl Context {
     #[verifier::external_body]
     pub fn class(&self, n: &TrueName, pos: Position) -> (r: TypeResult<Class>)
-        ensures r matches Ok(c) ==> cls_of(c) == *n, r is Err ==> r->Err_0@.len() >= 1,
+        ensures r is Ok <==> class_known(*self, *n), r matches Ok(c) ==> cls_of(c) == *n, r is Err ==> r->Err_0@.len() >= 1,
     { unimplemented!() }
 }
+/// what Class::has_parent accepts as the ancestor to look for (the real code overloads the trait for &TrueName and &Name)
+pub trait ParentLike { spec fn is_anc(&self, ctx: Context, c: TrueName) -> bool; }
+impl ParentLike for TrueName { open spec fn is_anc(&self, ctx: Context, c: TrueName) -> bool { anc(ctx, c, *self) } }
+impl ParentLike for Name { open spec fn is_anc(&self, ctx: Context, c: TrueName) -> bool { name_anc(ctx, c, *self) } }
 impl Class {
     #[verifier::external_body]
-    pub fn has_parent(&self, name: &Name, ctx: &Context, pos: Position) -> (r: TypeResult<bool>)
-        ensures *name == exception_name() ==> (r matches Ok(b) ==> b == is_exception(*ctx, cls_of(*self))), r is Err ==> r->Err_0@.len() >= 1,
+    pub fn has_parent<Q: ParentLike>(&self, name: &Q, ctx: &Context, pos: Position) -> (r: TypeResult<bool>)
+        ensures r matches Ok(b) ==> b == name.is_anc(*ctx, cls_of(*self)), r is Err ==> r->Err_0@.len() >= 1,
     { unimplemented!() }
 }
 /// OUTLINED `Name::from(clss::EXCEPTION)`
@@ -729,19 +741,19 @@ pub open spec fn fundef_post(ast: AST, env: Environment, ctx: Context, r: Constr
 
 #[verifier::loop_isolation(false)]
 //@@ FN src/check/constrain/generate/definition.rs | free | gen_def | props=C08,C09,C03
-//@@ REPLACE pin=ea86473ee854
+//@@ REPLACE pin=5ca810f52f79
 //@@< let (class, non_nullable_class_vars) = match &id.node { $$ };
 //@@> let (class, non_nullable_class_vars) = verif_havoc_init_fields(id, env, ctx)?;
-//@@ REPLACE pin=367815e986d5
+//@@ REPLACE pin=42c4be3d849e
 //@@< let (raises, errs): (Vec<(Position, _)>, Vec<_>) = raises $$ .partition($$); if !errs.is_empty() { $$ }
 //@@> let raises_ast_g = Ghost(raises@); let raises = verif_declared_raises(raises)?;
 //@@ REPLACE
 //@@< Name::from(clss::EXCEPTION)
 //@@> verif_exception_name()
-//@@ REPLACE pin=187439c9e5d1
+//@@ REPLACE pin=9a346459be5e
 //@@< raises.into_iter().map($$).collect()
 //@@> verif_collect_raises(raises)
-//@@ REPLACE pin=17e3c14c08bf
+//@@ REPLACE pin=83735b9c883f
 //@@< if let Some(class) = class { $$ }
 //@@> if let Some(class) = class { verif_havoc_unassigned_report(&class, &body_env, id.pos)?; }
 //@@ ITERNAME
@@ -763,15 +775,34 @@ pub open spec fn fundef_post(ast: AST, env: Environment, ctx: Context, r: Constr
 //@@ END
 
 // ---- raise statements and the caught-set test (C08) ---------------------------------------------------------------------------
-/// A-EXT (class hierarchy): the class `n`, or an ancestor of it, is a member of `caught` (Context::class + Class::has_parent)
-pub uninterp spec fn covered(ctx: Context, n: TrueName, caught: Set<TrueName>) -> bool;
+/// a raised class is COVERED by the caught set iff it is a known class and itself or one of its ancestors is a member of the set
+/// (a has_parent query that fails counts as "no")
+pub uninterp spec fn anc_q(ctx: Context, c: TrueName, a: TrueName) -> bool;   // the query has_parent(a) on class c answers Ok(true)
+pub open spec fn covered(ctx: Context, n: TrueName, caught: Set<TrueName>) -> bool {
+    class_known(ctx, n) && exists|a: TrueName| caught.contains(a) && #[trigger] anc_q(ctx, n, a)
+}
 pub open spec fn all_covered(ctx: Context, raises: Set<TrueName>, caught: Set<TrueName>) -> bool {
     forall|n: TrueName| raises.contains(n) ==> covered(ctx, n, caught)
 }
-/// OUTLINED filter/any/map/collect chain of check_raises_caught: one diagnostic per raised class that is not covered
+/// the ancestor query with its failure mode: `has_parent(..).unwrap_or_default()`
 #[verifier::external_body]
-pub fn verif_uncaught(raises: &HashSet<TrueName>, env: &Environment, ctx: &Context, pos: Position) -> (r: Vec<TypeErr>)
-    ensures r@.len() == 0 <==> all_covered(*ctx, hs(*raises), hs(env.raises_caught)),
+pub fn verif_has_parent_or_false(c: &Class, a: &TrueName, ctx: &Context, pos: Position) -> (r: bool)
+    ensures r == anc_q(*ctx, cls_of(*c), *a),
+{ unimplemented!() }
+/// A-REWRITE: `set.iter().filter(f).map(g).collect::<Vec<_>>()` has one element per member that f keeps: empty iff f keeps none.
+/// `pred` is a ghost name for "f keeps this member"; the caller must show that f's postcondition says so.
+#[verifier::external_body]
+pub fn verif_filter_collect<F: Fn(&&TrueName) -> bool>(set: &HashSet<TrueName>, f: F, pos: Position, Ghost(pred): Ghost<spec_fn(TrueName) -> bool>) -> (r: Vec<TypeErr>)
+    requires forall|n: TrueName| #[trigger] f.requires((&&n,)),
+        forall|n: TrueName, keep: bool| #[trigger] f.ensures((&&n,), keep) ==> keep == pred(n),
+    ensures r@.len() == 0 <==> (forall|n: TrueName| hs(*set).contains(n) ==> !pred(n)),
+{ unimplemented!() }
+/// A-REWRITE: `set.iter().any(f)`: some member satisfies f
+#[verifier::external_body]
+pub fn verif_set_any<F: Fn(&TrueName) -> bool>(set: &HashSet<TrueName>, f: F, Ghost(pred): Ghost<spec_fn(TrueName) -> bool>) -> (r: bool)
+    requires forall|n: TrueName| #[trigger] f.requires((&n,)),
+        forall|n: TrueName, b: bool| #[trigger] f.ensures((&n,), b) ==> b == pred(n),
+    ensures r == (exists|n: TrueName| #[trigger] hs(*set).contains(n) && pred(n)),
 { unimplemented!() }
 /// the class a `raise Name(..)` statement names
 pub uninterp spec fn tn_of(lit: Seq<char>) -> TrueName;
@@ -780,9 +811,15 @@ pub uninterp spec fn tn_of(lit: Seq<char>) -> TrueName;
 pub fn verif_one_name(lit: &str) -> (r: HashSet<TrueName>) ensures hs(r) == set![tn_of(lit@)] { unimplemented!() }
 
 //@@ FN src/check/constrain/generate/statement.rs | free | check_raises_caught | props=C08,C03
-//@@ REPLACE pin=cb086cc5fb25
-//@@< raises .iter() .filter($$) .map($$) .collect()
-//@@> verif_uncaught(raises, env, ctx, pos)
+//@@ REPLACE deep pin=075d91aa1594
+//@@< raises .iter() .filter(|$rn| $$) .map($$) .collect()
+//@@> verif_filter_collect(raises, |$rn: &&TrueName| -> (keep: bool) ensures /*# a_raised_class_is_reported_iff_no_caught_class_is_among_its_ancestors [C08] #*/ keep == !covered(*ctx, **$rn, hs(env.raises_caught)), $$1, pos, Ghost(|n: TrueName| !covered(*ctx, n, hs(env.raises_caught))))
+//@@ REPLACE deep optional
+//@@< env.raises_caught.iter().any(|$er| $$)
+//@@> verif_set_any(&env.raises_caught, |$er: &TrueName| -> (b: bool) ensures b == anc_q(*ctx, cls_of(raise_class), *$er), $$1, Ghost(|a: TrueName| anc_q(*ctx, cls_of(raise_class), a)))
+//@@ REPLACE optional
+//@@< raise_class .has_parent(env_raise, ctx, pos) .unwrap_or_default()
+//@@> verif_has_parent_or_false(&raise_class, env_raise, ctx, pos)
     ensures
         // inside a function a raise is accepted iff every raised class is covered by the caught set; a script is unchecked
         r is Ok <==> (!env.in_fun || all_covered(*ctx, hs(*raises), hs(env.raises_caught))), //# raise_is_accepted_only_if_covered_by_the_caught_set [C08]
